@@ -351,6 +351,12 @@ def _call(c: ast.Call, ev, t: str):
         if dt == "<torch.bool>":
             return out != 0
         return out
+    if name == "torch.nonzero" and len(c.args) == 1:
+        x_ = ev(c.args[0])
+        if any(k.arg == "as_tuple" and not (isinstance(k.value, ast.Constant) and k.value.value is False) for k in c.keywords):
+            raise NotEvaluable("nonzero(as_tuple=True)")
+        b_ = x_ if x_.dtype == bool else (_as_exact(x_) != 0)
+        return frac_array(np.argwhere(b_).tolist()) if b_.any() else np.empty((0, x_.ndim), dtype=object)
     if name == "torch.cumsum" and len(c.args) >= 1:
         x_ = ev(c.args[0])
         rest = ast.Call(func=f, args=c.args[1:], keywords=c.keywords)
